@@ -1,6 +1,7 @@
 import Fundraising.Tables.Schema
 import Fundraising.Generated.Tables
 import Fundraising.Proofs.ExecLemmas
+import Fundraising.Proofs.HookProofs
 /-
   C17 — Every hook fires once with the real values and can veto the operation.
 
@@ -12,8 +13,10 @@ import Fundraising.Proofs.ExecLemmas
       precede the `Set` they announce and `After…` hooks follow it.
   (b) Model level: what the uniform dispatcher does for ANY number of listeners and any
       position of a failing one (`dispatchTo`), and how an operation reacts (`runAtomic`).
-  The op-level "arguments are the stored values" part is carried by the differential run
-  (projection: `H` lines), see bin/check.
+  (c) Op level: each operation that offers a hook calls it exactly once per listener with the
+      values it then stores, and a veto at any position fails the operation with nothing
+      committed (Proofs/HookProofs.lean).  The differential run (hooks focus) compares the
+      ordered `H` lines incl. arguments with the real keeper's.
 -/
 namespace Fundraising
 open Fundraising.Tables Fundraising.Generated
@@ -102,5 +105,66 @@ theorem C17_veto_reverts (st : State) (recover : Bool) (f : Ctx → M Ctx) (e : 
   rcases runAtomic_cases st recover f with ⟨c, hc, _⟩ | ⟨e', _, h2, h3⟩
   · rw [h] at hc; cases hc
   · exact ⟨by rw [h2], h3⟩
+
+
+/-! ### (c) every operation that offers a hook -/
+
+/-- bid placement: `BeforeBidPlaced` once per listener, with the id, owner, type, price and
+    coin of the bid that is then stored -/
+theorem C17_place_bid_hook (st : State) (bidder : Acc) (aid : Nat) (t : BidType) (price : Dec) (denom : Denom)
+    (amt : Int) (hok : (step st (.msg (.place bidder aid (some t) price denom amt))).1.res = .ok) :
+    ∃ v' b, (step st (.msg (.place bidder aid (some t) price denom amt))).2.core.views[aid]? = some v' ∧
+      v'.bids.getLast? = some b ∧
+      hooksOf (step st (.msg (.place bidder aid (some t) price denom amt))).1.effs =
+        calledOnce st.ctl.listeners "BeforeBidPlaced" (bidHookArgs b) :=
+  place_hooks st bidder aid t price denom amt hok
+
+/-- modification: `BeforeBidModified` once per listener with the values as stored — whether or
+    not an extra reservation was needed -/
+theorem C17_modify_bid_hook (st : State) (bidder : Acc) (aid bidId : Nat) (price : Dec) (denom : Denom)
+    (amt : Int) (hok : (step st (.msg (.modify bidder aid bidId price denom amt))).1.res = .ok) :
+    ∃ v' b, (step st (.msg (.modify bidder aid bidId price denom amt))).2.core.views[aid]? = some v' ∧
+      b ∈ v'.bids ∧ b.id = bidId ∧ b.price = price ∧ b.amt = amt ∧
+      hooksOf (step st (.msg (.modify bidder aid bidId price denom amt))).1.effs =
+        calledOnce st.ctl.listeners "BeforeBidModified" (bidHookArgs b) :=
+  modify_hooks st bidder aid bidId price denom amt hok
+
+/-- creation: `Before…Created` then `After…Created` (with the new id), once per listener each -/
+theorem C17_create_hooks (st : State) (m : CreateMsg) (hok : (step st (.msg (.create m))).1.res = .ok) :
+    hooksOf (step st (.msg (.create m))).1.effs =
+      calledOnce st.ctl.listeners
+        (if m.type = .fixed then "BeforeFixedPriceAuctionCreated" else "BeforeBatchAuctionCreated")
+        (createHookArgs m none) ++
+      calledOnce st.ctl.listeners
+        (if m.type = .fixed then "AfterFixedPriceAuctionCreated" else "AfterBatchAuctionCreated")
+        (createHookArgs m (some st.core.views.length)) :=
+  create_hooks st m hok
+
+theorem C17_cancel_hook (st : State) (signer : Acc) (aid : Nat)
+    (hok : (step st (.msg (.cancel signer aid))).1.res = .ok) :
+    hooksOf (step st (.msg (.cancel signer aid))).1.effs =
+      calledOnce st.ctl.listeners "BeforeAuctionCanceled" [rNat aid, rAcc signer] :=
+  cancel_hooks st signer aid hok
+
+theorem C17_allowlist_hooks (st : State) (aid : Nat) :
+    (∀ abs, (step st (.kadd aid abs)).1.res = .ok →
+      hooksOf (step st (.kadd aid abs)).1.effs =
+        calledOnce st.ctl.listeners "BeforeAllowedBiddersAdded" (rAllowedArgs abs)) ∧
+    (∀ u cap, (step st (.kupd aid u cap)).1.res = .ok →
+      hooksOf (step st (.kupd aid u cap)).1.effs =
+        calledOnce st.ctl.listeners "BeforeAllowedBidderUpdated" [rNat aid, rAcc u, rInt cap]) :=
+  ⟨fun abs h => kadd_hooks st aid abs h, fun u cap h => kupd_hooks st aid u cap h⟩
+
+/-- **veto, uniformly for every hook, every listener position and every operation** (messages,
+    keeper-API calls and blocks — i.e. settlements): if a listener that the operation calls
+    returns an error, the operation fails, commits nothing, and no later listener is called -/
+theorem C17_veto_fails_operation (st : State) (op : Op) (hop : op.isModuleOp = true) (name : String) (j : Nat)
+    (args : List String) (hf : st.ctl.failhook = none)
+    (hok : (step st op).1.res = .ok) (hcall : Eff.hook j name args ∈ (step st op).1.effs) :
+    let st' : State := { st with ctl := { st.ctl with failhook := some (name, j) } }
+    (step st' op).1.res ≠ .ok ∧
+    (step st' op).2.core = (match op with | .block t => { st.core with now := t } | _ => st.core) ∧
+    ∀ k a, j < k → Eff.hook k name a ∉ (step st' op).1.effs :=
+  veto_fails_op st op hop name j args hf hok hcall
 
 end Fundraising
